@@ -12,6 +12,7 @@ from argparse import ArgumentParser
 import attr
 from werkzeug import test as werkzeug_test
 from werkzeug.utils import redirect
+from werkzeug.urls import url_quote
 from werkzeug.wrappers import Request, Response, BaseResponse
 
 from .server import run_simple
@@ -297,8 +298,10 @@ class Application(object):
                 norm_path = normalize_path(url_path, route.is_branch)
                 if norm_path != url_path:
                     if route.slash_mode == S_REDIRECT:
+                        query_string = url_quote(request.query_string,
+                                                 safe="/:?@!$&'()*+,;=%-._~")
                         parts = [request.url_root.rstrip('/'),
-                                 norm_path, '?', request.query_string.decode('utf8')]
+                                 url_quote(norm_path), '?', query_string]
                         return redirect(''.join(parts))  # TODO: error_handler
                     elif route.slash_mode == S_STRICT:
                         nf_exc = err_handler.not_found_type(request=request,
